@@ -141,6 +141,17 @@ CHECKS.update({
         design='DESIGN.md §4 C05', engine='fsops+worlds'),
 })
 
+CHECKS.update({
+    'C13': dict(
+        technique='exhaustive enumeration of config lists (pairs/triples of variants of 6 pipelines) + all MultiChain histories to depth 3 (4); descriptor-identity oracle',
+        text='Every pair (quick) and triple (thorough) of variants of six pipelines is built as one MultiChain on the real library: each member must equal the standalone chain of its config '
+             '(tasks, storage paths, parameter values); for every pair of tasks of different members: one shared object iff the reference computation descriptors are equal, and the registry '
+             'holds exactly the distinct computations. All histories up to the depth over {value(member, task), MultiChain.force(task), restart}: returned values are the member\'s own '
+             'reference values, a value obtained through one member costs the others zero runs, forcing marks the closure in every member.',
+        note='Members are renamed copies of the variant configs (MultiChain requires distinct names); in-memory tasks included.',
+        design='DESIGN.md §4 C13', engine='worlds+refmodel'),
+})
+
 PENDING_REASON = 'check not built yet in this round (planned per DESIGN.md §4; technique applies)'
 
 
